@@ -58,12 +58,21 @@ SameCoverage == Covered(Leaves(CD, pair.c, 0)) = Covered(Leaves(GD, pair.go, 0))
 WideAgree == \A l \in Wide(GD, pair.go) : \E m \in Leaves(CD, pair.c, 0) : m.off <= l.off /\ l.off + l.size <= m.off + m.size /\ (m.size = l.size => m.off = l.off)
 LayoutAgrees == SameSize /\ SameCoverage /\ WideAgree
 
+\* members that occupy the same bytes carry the same name (modulo case and punctuation): a value written through the Go
+\* declaration lands in the member the C program reads under that name
+NamesAgree == LET cf == CD[pair.c].fields  co == Offsets(CD, pair.c)
+                  gf == GD[pair.go].fields  go == Offsets(GD, pair.go) IN
+              (~CD[pair.c].union /\ ~GD[pair.go].union) =>
+              \A i \in 1..Len(cf), j \in 1..Len(gf) :
+                 (co[i] = go[j] /\ ~IsPad(cf[i].name) /\ ~IsPad(gf[j].name) /\ cf[i].kind = "scalar" /\ gf[j].kind = "scalar"
+                    /\ FieldSize(CD, cf[i]) = FieldSize(GD, gf[j])) => cf[i].norm = gf[j].norm
+
 \* constants
 ConstsAgree == \A k \in DOMAIN CEnums : k \in DOMAIN GoEnums => CEnums[k] = GoEnums[k]
 
 Computed == [c |-> pair.c, go |-> pair.go, flavour |-> pair.flavour,
              csize |-> SizeOf(CD, pair.c), gosize |-> SizeOf(GD, pair.go),
              coffsets |-> Offsets(CD, pair.c), gooffsets |-> Offsets(GD, pair.go),
-             agrees |-> LayoutAgrees]
+             agrees |-> LayoutAgrees, names |-> NamesAgree]
 Emit == PrintT(<<"VECTOR", ToJson(Computed)>>)
 =============================================================================
